@@ -3,6 +3,7 @@
 import Chewing.Model.Loader
 import Chewing.Model.SqliteV1
 import Chewing.Model.UhashEnc
+import Chewing.Model.UhashTextEnc
 import Chewing.Model.TrieWalk
 import Chewing.Model.TrieCodec
 import Chewing.Model.Syllable
@@ -16,6 +17,9 @@ import Chewing.Driver.Util
     loader sqlstart <rows of the legacy chewing.sqlite3> => ok <dict entries> <dat after close> | err
     loader sqlv1  V:<raw userphrase_v1 rows> => ok <rows entries() yields after the in-file migration, key-sorted> | err
     loader encbin <lifetime bytes> G:<stored records> => <file bytes> valid|invalid <live records>
+    loader enctext <lifetime, signed decimal> G:<stored records> => <file bytes> valid|invalid <live records>
+        (the TEXT writer `Uhash.encodeText`; valid = the hypotheses of C19 `text_reader_complete`: the lifetime is an
+         i64 and every record is `GRec.TextValid`)
     walk entries <index bytes> <dataLen> <leaf table>                    => ok <n> <syls>/<phrase>… | panic | hang
     walk lookup  <index bytes> <dataLen> <leaf table> <s|f> <first> <q>  => ok <n> <phrase>…        | panic | hang
     walk open <file bytes>                                               => ok <index bytes> <dataLen> | err
@@ -131,6 +135,15 @@ def loaderExpected (fn : String) (args : List String) : Option String :=
     if rs.all Option.isSome then
       let rs := rs.filterMap id
       some (hexBytes 'b' (Uhash.encodeBin (unhex lt) rs) ++ (if rs.all (fun g => decide g.Valid) then " valid " else " invalid ")
+        ++ "D:" ++ ";".intercalate ((Uhash.liveRecs rs).map fun r => entryS ((r.syls, r.phrase), (r.freq, r.time))))
+    else none
+  | "enctext", [lt, gs] =>
+    let rs := (splitNonEmpty (gs.drop 2).toString ";").map grecOf
+    if rs.all Option.isSome then
+      let rs := rs.filterMap id
+      let z := intOf lt
+      let ok := decide (-9223372036854775808 ≤ z ∧ z < 9223372036854775808) && rs.all (fun g => decide g.TextValid)
+      some (hexBytes 'b' (Uhash.encodeText z rs) ++ (if ok then " valid " else " invalid ")
         ++ "D:" ++ ";".intercalate ((Uhash.liveRecs rs).map fun r => entryS ((r.syls, r.phrase), (r.freq, r.time))))
     else none
   | "learn", [dat, e] =>
